@@ -115,6 +115,11 @@ fn drive<Q: ErrorQueue>(rng: &mut Rng, ctx: &mut Ctx, q: &mut Q, cap: Option<usi
                 if !plain_standard && (rng.chance(1, 3) || !matches!(item_of(&e).msg.first(), Some(b'm'))) {
                     e = e.extended(pool[(uid * 7 + 3) % pool.len()]);
                 }
+                // device-dependent info is arbitrary bytes as far as the queue is concerned (a degree sign, a localized text)
+                if rng.chance(1, 15) {
+                    e = e.extended(*rng.pick(&[&b"limit is 85 \xb0C"[..], b"\xff", b"\xc3\xa9chec", b"a\x80b", b""]));
+                    ctx.count("pushes.extended-text-not-ascii-or-empty");
+                }
                 // device-dependent info that happens to repeat the description (a wrapped inner error does that)
                 if rng.chance(1, 12) {
                     let own: &'static [u8] = leak_once(e.get_message());
